@@ -104,15 +104,24 @@ def judge(ctx, c):
         want = np.sum(R * area[None], axis=(1, 2))
         ctx.close("C08.generation.bulk==integral(rate)", br.values, want, atol=1e-300, rtol=1e-9, case=wit,
                   key="C08:generation:bulk")
-    # default path (implicit roughness) agrees with the supplied-roughness path where the roughness exists
-    if c.get("check_default") and itype == "u10":
-        ok, rd = guarded(ctx, "C08.no-exception", lambda: b.generation.rate(s, speed, wd), wit,
+    # default path (roughness solved implicitly inside the call, for either wind input type): agrees with the
+    # supplied-roughness path where the roughness exists, and its bulk rate is the integral of its spectral rate
+    if c.get("check_default"):
+        ok, rd = guarded(ctx, "C08.no-exception",
+                         lambda: b.generation.rate(s, speed, wd, wind_speed_input_type=itype), wit,
                          key="C08:exception:generation.rate")
+        okb2, bd = guarded(ctx, "C08.no-exception",
+                           lambda: b.generation.bulk_rate(s, speed, wd, wind_speed_input_type=itype), wit,
+                           key="C08:exception:generation.bulk_rate")
+        zz = np.asarray(z.values, float)
+        good = np.isfinite(zz)
         if ok:
-            zz = np.asarray(z.values, float)
-            good = np.isfinite(zz)
             ctx.close("C08.generation:default-roughness-path", np.asarray(rd.values)[good], R[good],
                       atol=1e-12 * float(np.max(R, initial=0)), rtol=1e-9, case=wit, key="C08:generation:default")
+        if ok and okb2:
+            want = np.sum(np.asarray(rd.values, float) * area[None], axis=(1, 2))
+            ctx.close("C08.generation.bulk==integral(rate)", np.asarray(bd.values)[good], want[good], atol=1e-300, rtol=1e-8,
+                      case=wit, key="C08:generation:bulk:implicit-roughness")
     # ---- dissipation
     ok, d = guarded(ctx, "C08.no-exception", lambda: b.dissipation.rate(s), wit, key="C08:exception:dissipation.rate")
     if not ok:
@@ -209,10 +218,10 @@ def make(rng, i):
     dis_params = dsets[int(rng.integers(0, len(dsets)))] if rng.uniform() < 0.4 else None
     E = np.asarray(c["E"])
     c.update({"pair": pair, "gen_params": gen_params, "dis_params": dis_params,
-              "input_type": "friction_velocity" if i % 4 == 3 else "u10",
+              "input_type": "friction_velocity" if i % 4 in (2, 3) else "u10",
               "scale": float(rng.uniform(0.3, 3.0)),
               "dEdt": rng.normal(0, 1e-6, E.shape) * (E > 0),
-              "perm": rng.permutation(E.shape[0]), "check_default": bool(i % 3 == 0)})
+              "perm": rng.permutation(E.shape[0]), "check_default": bool(i % 2 == 0)})
     return c
 
 
